@@ -398,6 +398,7 @@ var Mutants = map[string][]Mutant{
 		{"Text.Heights uses the first line's top", "text.go", `\t_, ascent, _, _ := firstLine\.Heights\(t\.WritingMode\)`, "\tascent, _, _, _ := firstLine.Heights(t.WritingMode)", "E3.line-heights"},
 	},
 	"C17": {
+		{"feasibility decided by the deactivation flag (seed C17o)", "text/linebreak.go", `if -1\.0 <= ratio && ratio <= tolerance \{`, "if !tooLong && ratio <= tolerance {", "E4.feasible-window"},
 		{"first line exempt from the fitness charge (seed C17n)", "text/linebreak.go", `if 1\.0 < math\.Abs\(float64\(c-active\.Fitness\)\) \{`, "if 0 < active.Line && 1.0 < math.Abs(float64(c-active.Fitness)) {", "E4.fitness-charge-on-classes-only"},
 		{"glue after a forbidden penalty tried as a breakpoint", "text/linebreak.go", `if 0 < b && lb\.items\[b-1\]\.Type == BoxType && \(`, "if 0 < b && lb.items[b-1].Type != GlueType && (", "E4.glue-after-box"},
 		{"node dropped at a penalty because of the penalty's own width", "text/linebreak.go", `tooLong = lb\.width < \(lb\.W-active\.W\)-\(lb\.Z-active\.Z\)`, "tooLong = true", "E4.deactivation-without-penalty-width"},
@@ -419,6 +420,7 @@ var Mutants = map[string][]Mutant{
 		{"Linebreak looks at items[b+1] unguarded", "text/linebreak.go", `\(len\(lb\.items\) <= b\+1 \|\| lb\.items\[b\+1\]\.Type != PenaltyType\)`, `lb.items[b+1].Type != PenaltyType`, "E4.neighbour-guard"},
 	},
 	"C18": {
+		{"Tf skipped when the direction changes to a horizontal one (seed C18q)", "renderers/pdf/writer.go", `w\.fontSize != size \|\| w\.fontDirection != direction \{`, "w.fontSize != size || (direction == canvasText.TopToBottom || direction == canvasText.BottomToTop) && w.fontDirection != direction {", "E5.memo-test-covers-fields"},
 		{"pending widths flushed only before a run that differs from /DW (seed C18p)", "renderers/pdf/writer.go", `\n\t\t\t\tif i < j \{\n`, "\n\t\t\t\tif i < j && widths[j] != DW {\n", "E5.w-array-pending-flushed"},
 		{"CIDToGIDMap high byte taken from the code", "renderers/pdf/writer.go", `cidToGIDMap\[j\+0\] = byte\(\(glyphID & 0xFF00\) >> 8\)`, "cidToGIDMap[j+0] = byte((subsetGlyphID & 0xFF00) >> 8)", "E5.cid-to-gid-entries"},
 		{"width table read from the embedded program by code", "renderers/pdf/writer.go", `for subsetGlyphID, glyphID := range glyphIDs \{\n\t\twidths\[subsetGlyphID\] = int\(f\*float64\(font\.SFNT\.GlyphAdvance\(glyphID\)\) \+ 0\.5\)`, "for subsetGlyphID := range glyphIDs {\n\t\twidths[subsetGlyphID] = int(f*float64(sfnt.GlyphAdvance(uint16(subsetGlyphID))) + 0.5)", "E5.width-id-space"},
@@ -483,6 +485,7 @@ var Mutants = map[string][]Mutant{
 		{"explicit width used as millimetres", "svg.go", `width = svg\.parseDimension\(attrWidth, 1\.0\) \* 25\.4 / 96\.0`, `width = svg.parseDimension(attrWidth, 1.0)`, "E11.svg-size"},
 	},
 	"C20": {
+		{"PDF renderer keeps the caller's Options (reverts fix 9df3b1f)", "renderers/pdf/pdf.go", `(?s) else \{\n\t\t// the renderer changes its options.*?\n\t\topts = &o\n\t\}`, "", "E7.options-copied"},
 		{"shared shaping face built with NewFace", "text/harfbuzz.go", `&typesettingFont\.Face\{Font: font\}`, "typesettingFont.NewFace(font)", "E7.face-without-cache"},
 		{"faux bold toggles the package-level FastStroke", "font.go", `(\t+)p = p\.Offset\(d, Tolerance\)\n`, "${1}fastStroke := FastStroke\n${1}FastStroke = true\n${1}p = p.Offset(d, Tolerance)\n${1}FastStroke = fastStroke\n", "E7.global"},
 		{"hyphen width memoised per font without the size", "text/linebreak.go", `(?s)(\t"math"\n)(.*?)(// GlyphsToItems converts a slice of glyphs.*?)(\t\t\t\thyphenWidth \*= glyph\.Size / float64\(glyph\.SFNT\.Head\.UnitsPerEm\)\n)`, "${1}\t\"sync\"\n${2}var hyphenWidths sync.Map\n\n${3}${4}\t\t\t\thyphenWidths.Store(glyph.SFNT, hyphenWidth)\n", "E7.memo-key"},
